@@ -215,6 +215,21 @@ def gadget_or(ctx, facts):
             obb, e = ok_payload(b)
             if e is not None and "multiply" in str(e):
                 cand.append((b, obb, e))
+        if not cand and pick == "closure":
+            # the per-bit step may delegate to the scalar gadget: `or(ctx.narrow(step i), record_id, a_i, b_i)` - then the
+            # scalar rule above decides the expression and only the wiring is left: both operands are the closure's items
+            dele = None
+            for x in facts.tree(root):
+                for bb, t in x.calls():
+                    if (F.callee(t)[0] or "") == "protocol::boolean::or::or" and len(t["args"]) == 4:
+                        dele = (x, bb, t)
+            if dele is not None:
+                x, bb, t = dele
+                a3, a4 = (flow.strip_casts(flow.expr_of(x, o, max_depth=8)) for o in t["args"][2:4])
+                okd = a3 != a4 and all(("arg", 2) == y[:2] or "('arg', 2" in str(y) for y in (a3, a4))
+                ctx.count(bodies=1)
+                ctx.ob("GADGET", name, okd, "each bit is the scalar OR gadget applied to (a_i, b_i)" if okd else "the per-bit OR is not applied to the two operands' bits of the same position", site_of(x, bb))
+                continue
         if not cand:
             ctx.missing("GADGET", name)
             continue
